@@ -29,3 +29,27 @@ def _str_methods(i, v, name, node, fr):
         if name == "join":
             return BoundMethod(v, lambda interp, s, a, k, n, f: "<joined:%s>" % getattr(n, "lineno", "?"))
     return NotImplemented
+
+ceil_mul = z3.Function("ceil_mul", Int, Real, Int)  # math.ceil(n * f) as ONE uninterpreted function (the float product is not re-interpreted)
+
+
+@model("math.ceil", "ceil(n * f) = ceil_mul(n, f): an integer with 0 <= ceil_mul(n,f) <= n whenever n >= 0 and 0 <= f <= 1; ceil_mul(n,0)=0, ceil_mul(n,1)=n")
+def _ceil(i, args, kw, node, fr):
+    (v,) = args
+    if isinstance(v, (int, float)):
+        import math
+        return math.ceil(v)
+    if is_sym_int(v):
+        return v
+    # recognise the product  int * real
+    if z3.is_mul(v) and len(v.children()) == 2:
+        a, b = v.children()
+        for x, y in ((a, b), (b, a)):
+            if z3.is_to_real(x):
+                n_, f_ = x.arg(0), y
+                r = ceil_mul(n_, f_)
+                i.ctx.assume(z3.Implies(z3.And(n_ >= 0, f_ >= 0, f_ <= 1), z3.And(r >= 0, r <= n_)))
+                i.ctx.assume(z3.Implies(f_ == 0, r == 0))
+                i.ctx.assume(z3.Implies(f_ == 1, r == n_))
+                return r
+    raise Unsupported("math.ceil of %s" % v, node)
